@@ -293,8 +293,14 @@ class P(flow.Plan):
             rng = random.Random(sd * 7577 + i)
             k = rng.randint(1, 8)
             lines = job_lines(rng, k) if i % 3 else layered_job(rng, rng.randint(4, 12))
+            if i % 11 == 5:
+                # a long job (added after seed C15f: 'Resend: 11' read as line 1): two-digit line numbers get corrupted too
+                lines = layered_job(rng, rng.randint(16, 26))
+                k = len([x for x in lines if serial_rec.strip_job_line(x)])
             ntx_guess = k + 2
             corrupt = sorted(rng.sample(range(0, ntx_guess + 3), rng.choice([0, 1, 1, 2, 3])))
+            if i % 11 == 5:
+                corrupt = sorted(set(corrupt + [rng.randint(12, k)]))
             if rng.random() < 0.7 and 0 in corrupt:
                 corrupt.remove(0)          # keep most runs outside finding F13
             holds = {}
